@@ -474,4 +474,44 @@ var _ uuid.UUID
 //@ loop 1
 //@ invariant [spawned] spawned == $count && real == 0
 //@ loop 2
-//@ invariant [consumed] real == i && 0 <= i && spawned == len(nodePartitions) && fresh(result)
+//@ invariant [consumed] real == i && 0 <= i && i <= len(nodePartitions) && spawned == len(nodePartitions) && fresh(result)
+
+// the schedule hook of the replay harness is a no-op for every property
+//@ func storage.verifPause
+//@ props C09 C11
+//@ assume
+//@ modifies nothing
+
+//@ func (*storage.Dataset).getPartition
+//@ props C09 C11 C14
+//@ pure
+//@ ensures [found] isnil(ret1) ==> has(this.partitionsMap, id) && ret0 == this.partitionsMap[id]
+//@ ensures [absent] !isnil(ret1) ==> ret1 == PartitionNotFoundErr && ret0 == nil
+
+//@ func (*storage.Dataset).SearchPartitions
+//@ props C09
+//@ safety C12
+//@ ghost spawned int = 0
+//@ ghost real int = 0
+//@ at go searchPartition
+//@ set spawned = spawned + 1
+//@ end
+//@ at recv local:resultCh
+//@ set real = real + ite($ok, 1, 0)
+//@ end
+//@ at recv local:errorCh
+//@ assume [protocol: workers send only non-nil errors] $ok ==> !isnil($recv)
+//@ end
+//@ noclose resultCh errorCh
+//@ requires [ctx] !isnil(ctx)
+//@ ensures [all-consulted] isnil(ret1) ==> real == spawned && spawned == len(partitionIds)
+//@ ensures [never-nil-nil] isnil(ret1) ==> !isnil(ret0)
+//@ ensures [atmostk] isnil(ret1) ==> len(ret0) <= k
+//@ ensures [ascending] isnil(ret1) ==> sortedScores(ret0)
+//@ modifies *
+//@ loop 1
+//@ invariant [resolved] 0 - 1 <= rangeindex && rangeindex + 1 <= len(partitionIds) && len(partitions) == len(partitionIds) && fresh(partitions) && spawned == 0 && real == 0
+//@ loop 2
+//@ invariant [spawned] spawned == rangeindex + 1 && real == 0 && 0 - 1 <= rangeindex && rangeindex + 1 <= len(partitions) && len(partitions) == len(partitionIds)
+//@ loop 3
+//@ invariant [consumed] real == i && 0 <= i && i <= len(partitions) && spawned == len(partitions) && len(partitions) == len(partitionIds) && fresh(result)
